@@ -31,13 +31,14 @@ class OutputPartSensor(Sensor):
                  name = None,
                  data_capacity = float('inf'),
                  value = 0):
+        # Set before super().__init__ because initialize(env) is called
+        # from there if the simulation is already in progress.
         assert_is_instance(part_processor, PartProcessor)
-        super().__init__(part_probes, name, data_capacity, value)
-
         self._part_processor = part_processor
         assert sensing_interval >= 0, 'Probing interval cannot be less than 0.'
         self._probing_interval = sensing_interval
         self._counter = 0
+        super().__init__(part_probes, name, data_capacity, value)
 
     def initialize(self, env):
         if self._env == None:
